@@ -48,6 +48,9 @@ var (
 
 const vsPath = "verif/vs"
 
+// preOverlay maps accessor files (which exist only in the overlay) to their sources.
+var preOverlay = map[string]string{}
+
 func isTarget(p *listPkg) bool {
 	if p.Standard {
 		return false
@@ -87,7 +90,34 @@ func main() {
 		fmt.Fprintln(os.Stderr, "usage: rewrite -out DIR patterns...")
 		os.Exit(2)
 	}
-	args := []string{"list", "-export", "-deps", "-json=ImportPath,Dir,GoFiles,TestGoFiles,XTestGoFiles,Export,Standard,Module,ForTest"}
+	// accessor files must already be visible to `go list -export` (the harness packages refer to them)
+	pre := preOverlay
+	if ents, err := os.ReadDir(filepath.Join(*modDir, "accessors")); err == nil {
+		for _, d := range ents {
+			adir := filepath.Join(*modDir, "accessors", d.Name())
+			ipb, err := os.ReadFile(filepath.Join(adir, "importpath"))
+			if err != nil {
+				continue
+			}
+			lc := exec.Command("go", "list", "-f", "{{.Dir}}", strings.TrimSpace(string(ipb)))
+			lc.Dir = *modDir
+			dirb, err := lc.Output()
+			if err != nil {
+				fmt.Fprintln(os.Stderr, "rewrite: cannot locate accessor package", string(ipb))
+				os.Exit(2)
+			}
+			files, _ := os.ReadDir(adir)
+			for _, f := range files {
+				if strings.HasSuffix(f.Name(), ".go.txt") {
+					pre[filepath.Join(strings.TrimSpace(string(dirb)), "zz_verif_"+strings.TrimSuffix(f.Name(), ".txt"))] = filepath.Join(adir, f.Name())
+				}
+			}
+		}
+	}
+	preFile := filepath.Join(*outDir, "pre_overlay.json")
+	pb, _ := json.Marshal(struct{ Replace map[string]string }{pre})
+	os.WriteFile(preFile, pb, 0o644)
+	args := []string{"list", "-overlay", preFile, "-export", "-deps", "-json=ImportPath,Dir,GoFiles,TestGoFiles,XTestGoFiles,Export,Standard,Module,ForTest"}
 	if *withTest {
 		args = append(args, "-test")
 	}
@@ -167,6 +197,11 @@ func main() {
 			}
 		}
 	}
+	for k, v := range pre {
+		if _, done := overlay[k]; !done {
+			overlay[k] = v
+		}
+	}
 	for _, s := range perFile {
 		total.add(s)
 	}
@@ -203,7 +238,11 @@ func (r *pkgRewriter) run(files []string, overlay map[string]string, perFile map
 	var paths []string
 	for _, f := range files {
 		path := filepath.Join(r.pkg.Dir, f)
-		src, err := os.ReadFile(path)
+		from := path
+		if alt, ok := preOverlay[path]; ok {
+			from = alt
+		}
+		src, err := os.ReadFile(from)
 		if err != nil {
 			return err
 		}
